@@ -39,7 +39,7 @@ def _cases(tier, rng):
     for _ in range(n):
         prog = progs.gen_map_program(rng, n_funcs=rng.randint(1, 3), allow_generator=(rng.random() < 0.5),
                                      sizes_pool=(1, 2, 3) if rng.random() < 0.7 else (2, 2, 3))
-        yield {"prog": prog, "load_intermediate": rng.random() < 0.6}
+        yield {"prog": prog, "load_intermediate": rng.random() < 0.6, "rerun": rng.random() < 0.25}
 
 
 def _root_coord_expectations(prog):
@@ -65,6 +65,37 @@ def _ds_summary(ds):
         c = ds.coords[k]
         out["coords"][str(k)] = (list(map(str, c.dims)), [str(x) for x in c.values.tolist()] if c.ndim == 1 else "nd")
     return out
+
+
+def _second_run_same_folder(p, prog, folder, li):
+    """A run folder is reused by a second run with other input values (same shapes): the dataset loaded afterwards
+    belongs to the second run, and again agrees with the dataset built from its results."""
+    import numpy as np
+    from pipefunc.map import load_xarray_dataset
+    from pipefunc.map.xarray import xarray_dataset_from_results
+    inputs2 = {}
+    for n, v in progs.real_inputs(prog).items():
+        if isinstance(v, np.ndarray):
+            w = np.empty(v.shape, dtype=object)
+            for idx in np.ndindex(v.shape):
+                w[idx] = f"{v[idx]}'"
+            inputs2[n] = w
+        elif isinstance(v, list):
+            def prime(x):
+                return [prime(y) for y in x] if isinstance(x, list) else f"{x}'"
+            inputs2[n] = prime(v)
+        else:
+            inputs2[n] = f"{v}'"
+    try:
+        res2 = p.map(inputs2, run_folder=folder, parallel=False, storage="file_array", **progs.map_kwargs(prog))
+        a = _ds_summary(xarray_dataset_from_results(inputs2, res2, p, load_intermediate=li))
+        b = _ds_summary(load_xarray_dataset(run_folder=folder, load_intermediate=li))
+    except Exception as e:  # noqa: BLE001
+        return [f"second run into the same folder: {type(e).__name__}: {str(e)[:140]}"]
+    if a != b:
+        d = {k: (a["vars"].get(k), b["vars"].get(k)) for k in set(a["vars"]) | set(b["vars"]) if a["vars"].get(k) != b["vars"].get(k)}
+        return [f"after a second run into the same folder load_xarray_dataset does not show that run: {str(d)[:260]}"]
+    return []
 
 
 def _check(case):
@@ -165,6 +196,8 @@ def _check(case):
                             bad.append(f"ds[{o}].sel({name}={v0!r}) returned {progs.fz(sel.values)[:100]}, the element "
                                        f"computed from that input value is {progs.fz(expect)[:100]}")
                         break
+        if not bad and case.get("rerun"):
+            bad += _second_run_same_folder(p, prog, folder, li)
         return bad[:6]
     finally:
         shutil.rmtree(folder, ignore_errors=True)
